@@ -147,6 +147,9 @@ def main(run):
         run.violation(f'sequence|{key[:90]}', f'{P.where(nb) if nb else "path.rs"} NormalizedSegmentsImpl::new: {pr}')
     run.floor('sequence_step_cases', 5, 'abstract cases (stack top x relative) of the normalising step')
     join_loop(run, P)
+    # what a caller sees of the sequence, from either end, is the computed stack: the iterator layers are plain forwarders
+    from .. import fwd
+    fwd.normalized_iter_forwarders(run, P)
     # the normalised COPY (PathImpl::normalized).  Two forms are decided:
     #  * a REWRITE: copy self, normalise the copy in place (the rules above), end it with an empty segment iff the last segment of self is a dot
     #    segment and the normalised copy is not empty  (Engine S with the last segment as the text);
